@@ -297,11 +297,17 @@ pub fn gen_bracket(rng: &mut Rng, inner_depth: usize) -> G {
 
 pub fn gen_list(rng: &mut Rng) -> G {
     let (lo, hi) = if rng.chance(1, 2) { (0, None) } else { gen_bounds(rng, 3) };
-    let item = Box::new(match rng.below(4) {
+    // item parsers: non-nullable, free of separator/abort tokens, and *local* (their verdict on a
+    // segment does not depend on what follows the segment: no end_of_text, no negative lookahead)
+    let item = Box::new(match rng.below(8) {
         0 => G::One(0),
         1 => G::Any(vec![0, 1]),
         2 => G::Seq(vec![0, 1]),
-        _ => G::Both(Box::new(G::One(0)), Box::new(G::Maybe(Box::new(G::One(1))))),
+        3 => G::Both(Box::new(G::One(0)), Box::new(G::Maybe(Box::new(G::One(1))))),
+        4 => G::Either(Box::new(G::Seq(vec![0, 1])), Box::new(G::One(0))),
+        5 => G::Repeat(rng.below(4) as u8, 1, Some(2), Box::new(G::Any(vec![0, 1, 2]))),
+        6 => G::Spanned(Box::new(G::Both(Box::new(G::One(0)), Box::new(G::Maybe(Box::new(G::One(1))))))),
+        _ => G::Right(Box::new(G::One(2)), Box::new(G::Any(vec![0, 1]))),
     });
     let abort: Vec<u32> = match rng.below(3) { 0 => vec![9], 1 => vec![5, 9], _ => vec![5] };
     if rng.chance(1, 6) {
